@@ -490,7 +490,9 @@ func runC17Concurrent(c c17Case) kit.Result {
 			return res
 		}
 	}
-	var restoreEpoch atomic.Int64
+	// restoreStarted is bumped before a restore is requested, restoreEpoch after it returned: "no restore in between"
+	// means none was in flight when the window opened and none was started while it was open
+	var restoreEpoch, restoreStarted atomic.Int64
 	var restoresFired atomic.Int32
 	w.Z.Db.AddRestoreListener(func() { restoresFired.Add(1) })
 	var firstErr atomic.Value
@@ -551,6 +553,7 @@ func runC17Concurrent(c c17Case) kit.Result {
 		}()
 		for i := 0; i < c.WriterTxs; i++ {
 			epoch := restoreEpoch.Load()
+			startedBefore := restoreStarted.Load()
 			cur, err := readGeneration(w, c.Entities)
 			if err != nil {
 				fail(fmt.Errorf("writer: %v", err))
@@ -569,7 +572,7 @@ func runC17Concurrent(c c17Case) kit.Result {
 				fail(fmt.Errorf("writer's transaction to generation %d failed: %v (restore epoch %d -> %d)", cur+1, werr, epoch, restoreEpoch.Load()))
 				return
 			}
-			if restoreEpoch.Load() == epoch {
+			if epoch == startedBefore && restoreStarted.Load() == startedBefore {
 				// no restore in between: the update is either entirely visible or failed cleanly
 				if werr == nil && after != cur+1 {
 					fail(fmt.Errorf("writer committed generation %d but then read generation %d with no restore in between", cur+1, after))
@@ -592,6 +595,7 @@ func runC17Concurrent(c c17Case) kit.Result {
 					fail(fmt.Errorf("restore panicked: %v", p))
 				}
 			}()
+			restoreStarted.Add(1)
 			w.Z.Db.RestoreSnapshot(data)
 			restoreEpoch.Add(1)
 			note("restore %d done", i+1)
